@@ -1372,6 +1372,31 @@ impl Session {
     }
 }
 
+// H6: read-only accessors for oracles (never used to drive behaviour)
+#[cfg(anytls_verif)]
+impl Session {
+    /// (stream table entries, receiver table entries, packet counter, buffering, buffered bytes)
+    pub async fn verif_counts(&self) -> (usize, usize, u32, bool, usize) {
+        let a = self.streams.read().await.len();
+        let b = self.stream_receive_tx.read().await.len();
+        let c = self.pkt_counter.load(std::sync::atomic::Ordering::SeqCst);
+        let d = self.buffering.load(std::sync::atomic::Ordering::Relaxed);
+        let e = self.buffer.lock().await.len();
+        (a, b, c, d, e)
+    }
+    /// ids present in the stream table / the receiver table
+    pub async fn verif_ids(&self) -> (Vec<u32>, Vec<u32>) {
+        let mut a: Vec<u32> = self.streams.read().await.keys().copied().collect();
+        let mut b: Vec<u32> = self.stream_receive_tx.read().await.keys().copied().collect();
+        a.sort_unstable();
+        b.sort_unstable();
+        (a, b)
+    }
+    pub fn verif_is_client(&self) -> bool {
+        self.is_client
+    }
+}
+
 #[cfg(test)]
 mod tests {
     use super::*;
